@@ -2,10 +2,11 @@
 # Offline setup: nothing to build; sanity-check the tools and parse every TLA+ module.
 set -e
 cd "$(dirname "$0")/.."
-mkdir -p out evidence
+mkdir -p out evidence specs/gen
 java -version 2>&1 | head -1
 /venv/bin/python -c "import jax; print('jax', jax.__version__)"
-for f in specs/*.tla; do
-  java -cp /opt/veriftools/tla/tla2tools.jar:/opt/veriftools/tla/CommunityModules-deps.jar tla2sany.SANY "$f" > out/sany.log 2>&1 || { cat out/sany.log; exit 1; }
+cd specs
+for f in *.tla; do
+  java -cp /opt/veriftools/tla/tla2tools.jar:/opt/veriftools/tla/CommunityModules-deps.jar tla2sany.SANY "$f" > ../out/sany.log 2>&1 || { cat ../out/sany.log; exit 1; }
 done
 echo setup ok
